@@ -8,6 +8,7 @@ CONSTANTS
   TightCap = TRUE
   CopyArgs = TRUE
   HtmlDep = FALSE
+  LazyInit = FALSE
 VIEW View
 INVARIANT SharedReadOnly
 CHECK_DEADLOCK FALSE
